@@ -14,11 +14,18 @@ def prop_rules():
 def run_rules(repo, rules):
     p = subprocess.run([BIN, '-repo', repo, '-property', 'SEED', '-rules', rules, '-evidence', '', '-known', VERIF + '/known_findings.json'], capture_output=True, text=True)
     hits = []
+    global LAST_MSGS
+    LAST_MSGS = {}
     for l in p.stdout.splitlines():
         l = l.strip()
         if l.startswith('violated') or l.startswith('undecided'):
-            hits.append(l.split()[1] + ' : ' + l.split(' : ', 1)[1].split(' at ')[0] if ' : ' in l else l)
+            h = l.split()[1] + ' : ' + l.split(' : ', 1)[1].split(' at ')[0] if ' : ' in l else l
+            hits.append(h)
+            # the message without its position: a seed can change what an obligation that already fails on its base says
+            LAST_MSGS.setdefault(h, set()).add(re.sub(r'[\w/]+\.go:\d+', '', l.split(' at ', 1)[1].split(': ', 1)[1] if ' at ' in l and ': ' in l.split(' at ', 1)[1] else ''))
     return p.returncode, sorted(set(hits))
+
+LAST_MSGS = {}
 
 def baseline_hits(repo, rules):
     """violations already present on the unpatched base (e.g. defects repaired later)."""
@@ -37,11 +44,22 @@ def main():
         patch = os.path.join(d, 'patch.diff')
         assert subprocess.run(['git', '-C', '/repo', 'status', '--porcelain'], capture_output=True, text=True).stdout == '', '/repo not clean'
         applies = subprocess.run(['git', '-C', '/repo', 'apply', '--check', patch], capture_output=True).returncode == 0 and not meta.get('evaluate_on_base')
+        if applies:
+            # the patch may apply to HEAD and still not compile there (an import it removes is used by later code)
+            subprocess.check_call(['git', '-C', '/repo', 'apply', patch])
+            try:
+                rc, _ = run_rules('/repo', 'LDR-2')
+            finally:
+                subprocess.check_call(['git', '-C', '/repo', 'checkout', '--', '.'])
+                subprocess.check_call(['git', '-C', '/repo', 'clean', '-fdq'])
+            if rc == 2:
+                applies = False
         wt = None
         try:
             if applies:
                 repo = '/repo'
                 base_extra = set()
+                base_msgs = {}
                 subprocess.check_call(['git', '-C', '/repo', 'apply', patch])
                 where = 'HEAD'
             else:
@@ -49,13 +67,18 @@ def main():
                 subprocess.check_call(['git', '-C', '/repo', 'worktree', 'add', '-q', '--detach', wt, meta['base_commit']])
                 repo = wt
                 base_extra = baseline_hits(repo, 'all')
+                base_msgs = dict(LAST_MSGS)
                 subprocess.check_call(['git', '-C', wt, 'apply', patch])
                 where = 'base commit ' + meta['base_commit']
             pr = rules.get(meta['property'], [])
             _, own = run_rules(repo, ','.join(pr))
+            own_msgs = dict(LAST_MSGS)
             _, anyr = run_rules(repo, 'all')
-            own = [h for h in own if h not in base_extra]
-            anyr = [h for h in anyr if h not in base_extra]
+            any_msgs = dict(LAST_MSGS)
+            def new(h, msgs):
+                return h not in base_extra or (not applies and msgs.get(h, set()) != base_msgs.get(h, set()))
+            own = [h for h in own if new(h, own_msgs)]
+            anyr = [h for h in anyr if new(h, any_msgs)]
         finally:
             if applies:
                 subprocess.check_call(['git', '-C', '/repo', 'checkout', '--', '.'])
